@@ -277,7 +277,8 @@ func (m *MemoryBackend) Subscribe(client *Client, subs []packet.Subscription, ac
 	sess := client.Session().(*memorySession)
 
 	// save subscription
-	for _, sub := range subs {
+	for i := range subs {
+		sub := subs[i]
 		sess.subscriptions.Set(sub.Topic, &sub)
 	}
 
